@@ -296,6 +296,22 @@ class QVCalc(Calculator):
         self.results.update(self.extra_results(self.atoms))
         if self.style == "keyed":
             self.results["qv_key"] = config_key(self.atoms)
+            self.results["qv_state"] = (np.array(self.atoms.numbers), np.array(self.atoms.positions), np.array(self.atoms.cell.array), np.array(self.atoms.pbc))
+
+    @staticmethod
+    def same_configuration(state, atoms) -> bool:
+        """Same configuration up to 1e-12 A: ASE itself treats positions closer than 1e-15 as unchanged (a rigid
+        shift undone by FixCom differs from the start by rounding only), so bytes are too strict a notion here."""
+        if state is None:
+            return False
+        num, pos, cell, pbc = state
+        return (
+            len(num) == len(atoms)
+            and np.array_equal(num, atoms.numbers)
+            and np.array_equal(pbc, atoms.pbc)
+            and bool(np.abs(pos - atoms.positions).max(initial=0.0) <= 1e-12)
+            and bool(np.abs(cell - atoms.cell.array).max(initial=0.0) <= 1e-12)
+        )
 
     def get_property(self, name, atoms=None, allow_calculation=True):
         out = super().get_property(name, atoms, allow_calculation)
@@ -303,7 +319,7 @@ class QVCalc(Calculator):
             self.handed_out += 1
             tag = self.results.get("qv_key")
             want = config_key(atoms)
-            if tag != want:
+            if tag != want and not self.same_configuration(self.results.get("qv_state"), atoms):
                 self.misattributed.append({"prop": name, "tag": tag, "queried": want})
         return out
 
